@@ -87,6 +87,11 @@ def main():
         if r.returncode == 2:
             ok = False
             why = "machinery error (mutant does not compile?): " + r.stdout[-300:] + r.stderr[-600:]
+        elif exp is None and m.get("only_keys"):
+            # a twin that changes behaviour-neutral form which the reference comparison legitimately reports: only the named rules must be silent
+            hit = [k for k in keys if any(o in k for o in m["only_keys"])]
+            ok = not hit
+            why = "silent for %s" % m["only_keys"] if ok else "false alarm: %s" % hit
         elif exp is None:
             ok = r.returncode == 0
             why = "silent" if ok else "false alarm: %s" % keys
